@@ -13,6 +13,10 @@
 #include "libtopology/topology_constraints.h"
 #include "libvpsc/assertions.h"
 #include <array>
+#include <map>
+#include <set>
+#include <algorithm>
+#include <cmath>
 #include <tuple>
 
 #ifdef ADAPTAGRAMS_VERIF
@@ -310,6 +314,104 @@ void TopoSession::run() {
             yield("op");
             continue;
         }
+        if (o == "boundary") {
+            // C15 only: the cyclic edge libtopology keeps for the boundary of a cola::ConvexCluster (built as ColaTopologyAddon::makeFeasible
+            // builds it: hull corners from the real ConvexCluster::computeBoundary, first point repeated as last), on private copies of the
+            // rectangles, driven through TopologyConstraints passes in both dimensions.  Generated variants: corners of member rectangles
+            // lying exactly on a hull side are kept as (degenerate) bends, and the cycle may start at any of its points.
+            if (!armed("C15")) continue;
+            w->log.ev("topo-boundary", id, (long)oi);
+            vpsc::Rectangles brs; std::vector<topology::Node *> bn; std::vector<topology::Edge *> bes;
+            std::string eb = guarded([&] {
+                for (auto q : rs) brs.push_back(new vpsc::Rectangle(q->getMinX(), q->getMaxX(), q->getMinY(), q->getMaxY()));
+                if (op.has("align")) {
+                    // one member is slid (on the private copies) until one of its sides is level with the same side of another member,
+                    // as an alignment constraint leaves them; skipped when it would come within 8 of any other rectangle
+                    size_t ia = (size_t)op["align"][0].i(), ib = (size_t)op["align"][1].i(); int side = (int)op["align"][2].i();
+                    if (ia < brs.size() && ib < brs.size() && ia != ib) {
+                        vpsc::Rectangle *A = brs[ia], *B = brs[ib];
+                        double dx = 0, dy = 0;
+                        switch (side) { case 0: dy = A->getMinY() - B->getMinY(); break; case 1: dy = A->getMaxY() - B->getMaxY(); break; case 2: dx = A->getMinX() - B->getMinX(); break; default: dx = A->getMaxX() - B->getMaxX(); }
+                        RectB nb{B->getMinX() + dx, B->getMinY() + dy, B->width(), B->height()};
+                        bool ok = true;
+                        for (size_t i = 0; i < brs.size(); i++) if (i != ib && rectsOverlap(nb, RectB{brs[i]->getMinX(), brs[i]->getMinY(), brs[i]->width(), brs[i]->height()}, 8)) ok = false;
+                        if (ok) { B->moveMinX(nb.x); B->moveMinY(nb.y); probe("topology.boundary-members-aligned"); }
+                    }
+                }
+                cola::ConvexCluster cc;
+                std::set<unsigned> mem;
+                for (auto &mj : op["members"].a) if ((size_t)mj.i() < brs.size()) mem.insert((unsigned)mj.i());
+                if (mem.size() < 2) return;
+                for (unsigned m : mem) cc.addChildNode(m);
+                cc.computeBoundary(brs);
+                size_t hn = cc.hullRIDs.size();
+                if (hn < 3) return;
+                double bx0 = 1e300, bx1 = -1e300, by0 = 1e300, by1 = -1e300;
+                for (size_t j = 0; j < hn; j++) { bx0 = std::min(bx0, cc.hullX[j]); bx1 = std::max(bx1, cc.hullX[j]); by0 = std::min(by0, cc.hullY[j]); by1 = std::max(by1, cc.hullY[j]); }
+                std::map<unsigned, unsigned> nodeOf;
+                for (unsigned i = 0; i < brs.size(); i++) {
+                    bool in = mem.count(i) > 0;
+                    if (!in) { vpsc::Rectangle *q = brs[i]; if (q->getMaxX() < bx0 - 8 || q->getMinX() > bx1 + 8 || q->getMaxY() < by0 - 8 || q->getMinY() > by1 + 8) in = true; }
+                    if (in) { nodeOf[i] = (unsigned)bn.size(); bn.push_back(new topology::Node((unsigned)bn.size(), brs[i])); }
+                }
+                auto cornerPos = [&](unsigned rid, unsigned c, double &x, double &y) { vpsc::Rectangle *q = brs[rid]; x = (c == 0 || c == 1) ? q->getMaxX() : q->getMinX(); y = (c == 1 || c == 2) ? q->getMaxY() : q->getMinY(); };
+                std::vector<std::pair<unsigned, unsigned>> path;       // (rect, corner 0 BR 1 TR 2 TL 3 BL)
+                bool keep = op.boolean("keep_collinear", false);
+                for (size_t j = 0; j < hn; j++) {
+                    path.push_back({cc.hullRIDs[j], (unsigned)cc.hullCorners[j]});
+                    if (!keep) continue;
+                    double px = cc.hullX[j], py = cc.hullY[j], qx = cc.hullX[(j + 1) % hn], qy = cc.hullY[(j + 1) % hn];
+                    std::vector<std::tuple<double, unsigned, unsigned>> on;
+                    for (unsigned m : mem) for (unsigned c = 0; c < 4; c++) {
+                        double x, y; cornerPos(m, c, x, y);
+                        if ((x == px && y == py) || (x == qx && y == qy)) continue;
+                        if ((qx - px) * (y - py) - (qy - py) * (x - px) != 0) continue;
+                        double t = (x - px) * (qx - px) + (y - py) * (qy - py), l2 = (qx - px) * (qx - px) + (qy - py) * (qy - py);
+                        if (t <= 0 || t >= l2) continue;
+                        on.push_back(std::make_tuple(t, m, c));
+                    }
+                    std::sort(on.begin(), on.end());
+                    for (auto &tp : on) { path.push_back({std::get<1>(tp), std::get<2>(tp)}); probe("topology.boundary-collinear-corner-kept"); }
+                }
+                size_t rot = (size_t)op.i("rot", 0) % path.size();
+                if (op.boolean("start_at_collinear", false) && path.size() > hn) {
+                    // the cycle starts (and ends) at a kept collinear corner: the join point itself is a degenerate bend
+                    std::set<std::pair<unsigned, unsigned>> hullPts; for (size_t j = 0; j < hn; j++) hullPts.insert({cc.hullRIDs[j], (unsigned)cc.hullCorners[j]});
+                    std::vector<size_t> cand; for (size_t k = 0; k < path.size(); k++) if (!hullPts.count(path[k])) cand.push_back(k);
+                    if (!cand.empty()) { rot = cand[(size_t)op.i("rot", 0) % cand.size()]; probe("topology.boundary-join-point-degenerate"); }
+                }
+                if (rot) probe("topology.boundary-rotated-start");
+                std::vector<topology::EdgePoint *> eps;
+                for (size_t k = 0; k < path.size(); k++) {
+                    auto &pc = path[(rot + k) % path.size()];
+                    topology::EdgePoint::RectIntersect ri = pc.second == 0 ? topology::EdgePoint::BR : pc.second == 1 ? topology::EdgePoint::TR : pc.second == 2 ? topology::EdgePoint::TL : topology::EdgePoint::BL;
+                    eps.push_back(new topology::EdgePoint(bn[nodeOf[pc.first]], ri));
+                }
+                eps.push_back(eps[0]);
+                bes.push_back(new topology::Edge(0, 2.0 * sqrt(M_PI * cc.area(brs)), eps));
+                probe("topology.boundary-built");
+                for (auto &ps : op["passes"].a) {
+                    vpsc::Dim dim = ps.i("dim", 0) ? vpsc::VERTICAL : vpsc::HORIZONTAL;
+                    vpsc::Variables vs; vpsc::Constraints cs;
+                    for (size_t i = 0; i < bn.size(); i++) vs.push_back(new vpsc::Variable((int)i, bn[i]->rect->getCentreD(dim)));
+                    topology::setNodeVariables(bn, vs);
+                    for (auto &sj : ps["set"].a) { auto it = nodeOf.find((unsigned)sj[0].i()); if (it != nodeOf.end()) { vs[it->second]->desiredPosition = bn[it->second]->rect->getCentreD(dim) + sj[1].num(); vs[it->second]->weight = 100; } }
+                    struct Cleanup { vpsc::Variables &vs; vpsc::Constraints &cs; std::vector<topology::Node *> &bn; ~Cleanup() { for (auto v : vs) delete v; for (auto c : cs) delete c; for (auto nd : bn) nd->var = nullptr; } } cu{vs, cs, bn};
+                    {
+                        topology::TopologyConstraints t(dim, bn, bes, nullptr, vs, cs);
+                        int guard = 0;
+                        while (t.solve() && ++guard < 30) {}
+                    }
+                    probe("topology.boundary-pass");
+                    if (!bes[0]->cycle()) { HarnessScope hs; violate("C15", "assert", "boundary-no-longer-a-cycle", "after a TopologyConstraints pass"); }
+                }
+            });
+            if (!eb.empty()) { w->fault("exception"); probe(eb.c_str()); violate("C15", "assert", "boundary:" + eb, "cluster boundary passes"); }
+            std::string ec = guarded([&] { for (auto e : bes) delete e; for (auto nd : bn) delete nd; for (auto q : brs) delete q; });
+            if (!ec.empty()) { probe(ec.c_str()); violate("C15", "assert", "boundary:" + ec, "cluster boundary teardown"); }
+            yield("op");
+            continue;
+        }
         if (o != "run") continue;
         w->log.ev("topo-run", id, (long)oi);
         convCalls = 0; preCalls = 0; stopAtIter = 0; events.clear();
@@ -415,6 +517,22 @@ Json genTopoSession(Rng &r, const std::string &tier) {
         // different nodes (and the bends created on them) coincide exactly -- the tie cases of the scan-line code
         { int ax = (int)r.below(10); if (ax < 2) o.set("x", false); else if (ax < 3) o.set("y", false); }
         ops.push(o);
+    }
+    {   // side stream (all other draws stay as they were): a cluster boundary exercised on its own, see op "boundary"
+        Rng r2(Rng::mix(r.s, "boundary"));
+        if (n >= 3 && r2.chance(0.4)) {
+            Json o = Json::obj(); o.set("op", "boundary");
+            Json mem = Json::arr(); int m = r2.range(2, std::min(n, 4)); std::set<int> ch; while ((int)ch.size() < m) ch.insert((int)r2.below(n)); for (int i : ch) mem.push((long)i);
+            o.set("members", mem); o.set("keep_collinear", r2.chance(0.6)); o.set("rot", r2.chance(0.6) ? (long)r2.below(16) : 0L);
+            if (r2.chance(0.7)) { std::vector<int> mv(ch.begin(), ch.end()); int ia = (int)r2.below(mv.size()), ib = (int)r2.below(mv.size() - 1); if (ib >= ia) ib++;
+                Json al = Json::arr(); al.push((long)mv[ia]); al.push((long)mv[ib]); al.push((long)r2.below(4)); o.set("align", al); }
+            o.set("start_at_collinear", r2.chance(0.5));
+            Json passes = Json::arr(); int np = r2.range(2, 4); int d0 = (int)r2.below(2);
+            for (int k = 0; k < np; k++) { Json ps = Json::obj(); ps.set("dim", (long)((d0 + k) % 2)); Json set = Json::arr(); int mv = r2.range(0, 2);
+                for (int j = 0; j < mv; j++) { Json e = Json::arr(); e.push((long)r2.below(n)); e.push((double)r2.range(-6, 6) * 10); set.push(e); }
+                ps.set("set", set); passes.push(ps); }
+            o.set("passes", passes); ops.push(o);
+        }
     }
     s.set("ops", ops);
     return s;
